@@ -152,6 +152,11 @@ func dMismatch(out *vOut, r *vRand, all []dEntryPts) {
 			"bool": {"bool": true}, "string": {"str": true}, "int": {"num": true}, "uint": {"num": true}, "float": {"num": true},
 			"duration": {"num": true, "str": true}, "strslice": {"str": true, "list": true}, "struct": {"map": true},
 		}[tg.kind][w.fam] || w.fam == "null"
+		// a number with a fractional part is a mistake for an integer-kind setting (it used to be
+		// truncated silently: former finding C13-FLOAT-TRUNCATED, fixed by 91bc960c3)
+		if w.fam == "num" && w.f != math.Trunc(w.f) && (tg.kind == "int" || tg.kind == "uint" || tg.kind == "duration") {
+			fits = false
+		}
 		if err != nil {
 			if strings.HasPrefix(err.Error(), "PANIC") {
 				out.Oracle("mismatch-panics", pre+"DErr)", key+": "+err.Error())
@@ -187,14 +192,12 @@ func dMismatch(out *vOut, r *vRand, all []dEntryPts) {
 			case tg.kind == "int" || (tg.kind == "duration" && w.fam == "num"):
 				obs = "(DNum " + vZ(tv.Int()) + " false)"
 				if float64(tv.Int()) != w.f && fits {
-					out.Oracle("mismatch-coerced", pre+obs+")", fmt.Sprintf("float %v written for %s field %s truncated to %d", w.yaml, tg.kind, key, tv.Int()))
-					out.Stat("mismatch.truncated", 1)
+					out.Oracle("mismatch-coerced", pre+obs+")", fmt.Sprintf("%v written for %s field %s, typed value %d", w.yaml, tg.kind, key, tv.Int()))
 				}
 			case tg.kind == "uint":
 				obs = "(DNum " + vZ(int64(tv.Uint())) + " false)"
 				if float64(tv.Uint()) != w.f && fits {
-					out.Oracle("mismatch-coerced", pre+obs+")", fmt.Sprintf("float %v written for %s field %s truncated to %d", w.yaml, tg.kind, key, tv.Uint()))
-					out.Stat("mismatch.truncated", 1)
+					out.Oracle("mismatch-coerced", pre+obs+")", fmt.Sprintf("%v written for %s field %s, typed value %d", w.yaml, tg.kind, key, tv.Uint()))
 				}
 			case tg.kind == "float":
 				f := tv.Float()
